@@ -131,3 +131,15 @@ def bus_map_frame_model(self, identifier, bank_range, addr_range, mask, writeabl
     if fresh_int("map_ok") == 0:
         raise RuntimeError("bus is not editable")
     return None
+
+
+def scanner_scan_model(self, filename, program):
+    """assumed outcome of the scanner for parse_as_ast_reports_contract: some token list (irrelevant: the parser's outcome is assumed too)"""
+    return []
+
+
+def parser_parse_raises_model(self):
+    """assumed outcome of Parser.parse for parse_as_ast_reports_contract: a syntax error carrying the ghost token (a token with a position,
+    as parser_error_location_contract establishes for every parser function)"""
+    from a816.parse.errors import ParserSyntaxError
+    raise ParserSyntaxError("syntax error", ghost_get("error_token"))
